@@ -105,3 +105,24 @@ Theorem isempty_looks_at_the_first_output_only : forall A (s : str A),
                          end.
 Proof. exact @LastLaws.isempty_spec. Qed.
 Print Assumptions isempty_looks_at_the_first_output_only.
+
+(** `all(g; cond)` = `isempty(g | cond and empty)` and `any(g; cond)` = `isempty(g | cond or empty) | not` (defs.jq), on the
+    stream of the truth values of cond: the conjunction / disjunction of all of them, decided at the first deciding value -
+    what follows it (an error, a halt, no end) is not looked at *)
+Theorem all_is_the_conjunction : forall bs, LastLaws.all_s (of_list bs) = sone (Bool (forallb (fun b => b) bs)).
+Proof. exact LastLaws.all_of_list. Qed.
+Print Assumptions all_is_the_conjunction.
+
+Theorem any_is_the_disjunction : forall bs, LastLaws.any_s (of_list bs) = sone (Bool (existsb (fun b => b) bs)).
+Proof. exact LastLaws.any_of_list. Qed.
+Print Assumptions any_is_the_disjunction.
+
+Theorem all_stops_at_the_first_false : forall n (rest : unit -> str bool),
+  LastLaws.all_s (sapp (of_list (repeat true n ++ (false :: nil))) rest) = sone (Bool false).
+Proof. exact LastLaws.all_stops_at_the_first_false. Qed.
+Print Assumptions all_stops_at_the_first_false.
+
+Theorem any_stops_at_the_first_true : forall n (rest : unit -> str bool),
+  LastLaws.any_s (sapp (of_list (repeat false n ++ (true :: nil))) rest) = sone (Bool true).
+Proof. exact LastLaws.any_stops_at_the_first_true. Qed.
+Print Assumptions any_stops_at_the_first_true.
